@@ -6,7 +6,8 @@
    on plain JSON input.                                                              *)
 From Coq Require Import NArith ZArith List String Bool Lia Permutation.
 From V Require Import Base.UString Base.Json Model.SchemaTypes Model.PyBase Model.Schema.
-From V Require Import Proofs.C01Basics Proofs.C01Kinds Proofs.C01Float Proofs.C01KindsAll Proofs.C01Sort Proofs.C01Object.
+From V Require Import Proofs.C01Basics Proofs.C01Kinds Proofs.C01Float Proofs.C01KindsAll Proofs.C01Sort Proofs.C01Object
+  Proofs.C04Strict Proofs.C01Marking.
 Import ListNotations.
 
 Fixpoint nodupb (l : list ustring) : bool :=
@@ -50,6 +51,88 @@ Qed.
 Definition is_sco21 (c : cls) : bool :=
   match cfamily c, cver c with FSco, V21 => true | _, _ => false end.
 
+
+(* ------------------------------------------------------------------ what a generic constructor run gives, in one place *)
+Lemma written_facts : forall vr ev w po so rcX rp ro PX (Hpad : vr_year_pad vr = true) (Hrc : rc_idem rcX PX) cX a i vrf
+    (Hnd : NoDup (map sname (cslots cX))) (Hslots : forallb (slot_ok vr PX) (cslots cX) = true) fuel kw obj,
+  plain_dict kw = true ->
+  construct_generic vr ev w po so rcX rp ro fuel cX a i kw [] vrf = Ok obj ->
+  exists Sv hc, obj = PObject (cid cX) Sv (defaulted_names cX Sv) hc /\
+    construct_generic vr ev w po so rcX rp ro fuel cX a i (written cX Sv) [] vrf = Ok obj /\
+    plain_dict (written cX Sv) = true /\
+    (forall r, In r reserved_names -> amem r kw = false -> amem r (written cX Sv) = false) /\
+    (forall n, amem n kw = true -> amem n Sv = true).
+Proof.
+  intros vr ev w po so rcX rp ro PX Hpad Hrc cX a i vrf Hnd Hslots fuel kw obj Hp Hcg.
+  destruct (cg_idem vr ev w po so rcX rp ro PX Hpad Hrc cX a i vrf Hnd Hslots fuel kw obj Hp Hcg)
+    as [Sv [hc [Eobj [Hre [Hkeys Hgiven]]]]].
+  exists Sv, hc. split; [exact Eobj |]. split; [exact Hre |]. split; [| split; [| exact Hgiven]].
+  - destruct (cg_written_plain vr ev w po so rcX rp ro PX Hpad Hrc cX a i vrf Hnd Hslots fuel kw _ Hp Hcg)
+      as [S2 [hc2 [E2 Hpl2]]]. rewrite Eobj in E2. inversion E2; subst. exact Hpl2.
+  - intros r Hr Hk. destruct (amem r (written cX Sv)) eqn:Ea; auto. exfalso.
+    destruct (Hkeys r Ea) as [Hin | Hin]; [| congruence].
+    unfold PN in Hin. apply in_map_iff in Hin. destruct Hin as [sl [En Hsl]].
+    rewrite forallb_forall in Hslots. pose proof (Hslots sl Hsl) as Hs. unfold slot_ok in Hs.
+    apply andb_true_iff in Hs. destruct Hs as [Hs _]. apply andb_true_iff in Hs. destruct Hs as [_ Hs].
+    apply negb_true_iff in Hs. rewrite En in Hs. apply (proj2 (mem_ustr_In r reserved_names)) in Hr. congruence.
+Qed.
+
+(* a stored member that is not a defaulted optional is written *)
+Lemma written_stored : forall vr PX cX (Hnd : NoDup (map sname (cslots cX))) (Hslots : forallb (slot_ok vr PX) (cslots cX) = true) Sv n v,
+  alookup n Sv = Some v -> (forall b, v <> PJ (JBool b)) -> alookup n (written cX Sv) = Some (encode false v).
+Proof.
+  intros vr PX cX Hnd Hslots Sv n v Ev Hnb. rewrite alookup_written, Ev.
+  destruct (mem_ustr n (defaulted_names cX Sv)) eqn:Ed; auto.
+  destruct (mem_defaulted vr PX cX Hnd Hslots _ _ Ed) as [sl [b [_ [_ E3]]]]. rewrite Ev in E3. inversion E3.
+  exfalso. eapply Hnb. eassumption.
+Qed.
+
+Lemma cg_object : forall vr ev w po so rc rp ro fuel c a i kw pre vrf o,
+  construct_generic vr ev w po so rc rp ro fuel c a i kw pre vrf = Ok o -> exists ci S0 d h, o = PObject ci S0 d h.
+Proof.
+  intros vr ev w po so rc rp ro fuel c a i kw pre vrf o H. unfold construct_generic in H.
+  walk H; inv H; eauto.
+Qed.
+
+Lemma run_construct_object : forall vr ev w po so fuel k a i kw vrefs o,
+  run vr ev w po so fuel (RConstruct k a i kw vrefs) = Ok o -> exists ci S0 d h, o = PObject ci S0 d h.
+Proof.
+  intros vr ev w po so fuel k a i kw vrefs o H.
+  destruct fuel as [| f]; cbn [run] in H; try discriminate.
+  destruct (find_class (wclasses w) k) as [c |] eqn:Ef; try discriminate.
+  destruct (amem (u "_valid_refs") kw || amem (u "allow_custom") kw || amem (u "interoperability") kw || amem (u "self") kw);
+    try discriminate.
+  unfold bind in H.
+  match type of H with match ?g with _ => _ end = _ => destruct g as [obj | |] eqn:Eg; try discriminate end.
+  assert (Hobj : exists ci S0 d h, obj = PObject ci S0 d h).
+  { destruct (cinit c); try discriminate; try (eapply cg_object; exact Eg).
+    walk Eg; try discriminate;
+      match goal with Hg : construct_generic _ _ _ _ _ _ _ _ _ _ _ _ _ _ _ = Ok _ |- _ => eapply cg_object; exact Hg end. }
+  destruct Hobj as [ci [S0 [d [h Eobj]]]]. subst obj.
+  destruct (cfamily c); try (inv H; eauto; fail). destruct (cver c); try (inv H; eauto; fail).
+  walk H; inv H; eauto.
+Qed.
+
+(* the 2.0 MarkingDefinition class with `created` at millisecond precision (the model's c_ms) *)
+Definition md_ms (c : cls) : cls :=
+  {| cid := cid c; cver := cver c; ctype := ctype c; cfamily := cfamily c;
+     cslots := map (fun s => if ustr_eqb (sname s) (u "created")
+                             then {| sname := sname s; skind := KTime PMilli CExact; sreq := sreq s; sdef := sdef s |}
+                             else s) (cslots c);
+     ccons := ccons c; cinit := cinit c; cidcontrib := cidcontrib c; cserialize_tlp := cserialize_tlp c |}.
+
+Lemma md_defaulted : forall c S, defaulted_names (md_ms c) S = defaulted_names c S.
+Proof.
+  intros c S. unfold defaulted_names, md_ms. cbn [cslots].
+  induction (cslots c) as [| s r IH]; cbn [map filter]; [reflexivity |].
+  destruct (ustr_eqb (sname s) (u "created")); cbn [sreq sdef sname];
+    match goal with |- context [if ?b then _ else _] => destruct b end; cbn [map sname]; rewrite IH; reflexivity.
+Qed.
+
+Definition DEF : ustring := u "definition".
+Definition DEFTYPE : ustring := u "definition_type".
+Definition CREATED : ustring := u "created".
+
 Section Knot.
   Variable vr : variant.
   Variable ev : env.
@@ -76,17 +159,89 @@ Section Knot.
   Definition closed_ok : bool :=
     forallb (fun cid0 => match find_class (wclasses w) cid0 with Some c => class_ok c | None => false end) ids.
 
-  Hypothesis Hclosed : closed_ok = true.
-
-  Lemma ids_class_ok : forall kid c, mem_ustr kid ids = true -> find_class (wclasses w) kid = Some c -> class_ok c = true.
+  Lemma ids_class_ok : closed_ok = true ->
+    forall kid c, mem_ustr kid ids = true -> find_class (wclasses w) kid = Some c -> class_ok c = true.
   Proof.
-    intros kid c Hm Hf. unfold closed_ok in Hclosed. rewrite forallb_forall in Hclosed.
+    intros Hclosed kid c Hm Hf. unfold closed_ok in Hclosed. rewrite forallb_forall in Hclosed.
+    apply mem_ustr_In in Hm. specialize (Hclosed kid Hm). rewrite Hf in Hclosed. exact Hclosed.
+  Qed.
+
+  (* ---- classes whose __init__ wraps `definition` (MarkingDefinition) ---- *)
+  Definition P2 (cid0 : ustring) : bool := ustr_eqb cid0 MARK || nestable cid0.
+
+  Definition is_dnone (s : slot) : bool := match sdef s with DNone => true | _ => false end.
+
+  (* table conditions on a class c' whose `definition` is wrapped, and on the class that wraps it *)
+  Definition md_slots_ok (c' : cls) : bool :=
+    let cw := wrap_cls DEF c' in
+    nodupb (map sname (cslots c')) && nodupb (map sname (cslots cw)) &&
+    forallb (slot_ok vr P2) (cslots cw) &&
+    forallb (fun s => ustr_eqb (sname s) DEF || kind_avoids (skind s) || (ustr_eqb (sname s) ext_key && is_dnone s)) (cslots c') &&
+    match slot_of c' DEF with Some sd => is_dnone sd | None => false end &&
+    match slot_of cw DEF with
+    | Some sd => is_dnone sd && match skind sd with KEmbedded k => ustr_eqb k MARK | _ => false end
+    | None => false
+    end &&
+    match slot_of cw DEFTYPE with
+    | Some sd => is_dnone sd && match skind sd with KString => true | _ => false end
+    | None => false
+    end.
+
+  Definition created_ok (cw : cls) (milli : bool) : bool :=
+    match slot_of cw CREATED with
+    | Some s => match sdef s with DNow => true | _ => false end &&
+                match skind s with
+                | KTime PAny CExact => negb milli
+                | KTime PMilli CExact => milli
+                | _ => false
+                end
+    | None => false
+    end.
+
+  Definition md_ok (c : cls) : bool :=
+    match cinit c with
+    | IMarkingDefinition vv =>
+      match cfamily c with FSco => false | _ => true end &&
+      forallb (fun kv => nestable (snd kv)) (rmarkings (reg_of w vv)) &&
+      md_slots_ok c &&
+      match slot_of c DEFTYPE with Some sd => is_dnone sd | None => false end &&
+      match vv with
+      | V21 => true
+      | V20 => vr_md20_default_ms vr && md_slots_ok (md_ms c) &&
+               created_ok (wrap_cls DEF c) false && created_ok (wrap_cls DEF (md_ms c)) true
+      end
+    | _ => false
+    end.
+
+  Definition init_okw (c : cls) : bool := init_ok vr (cinit c) || md_ok c.
+
+  Definition class_okw (c : cls) : bool :=
+    nodupb (map sname (cslots c)) && forallb (slot_ok vr nestable) (cslots c) && init_okw c &&
+    (negb (is_sco21 c) ||
+     match slot_of c (u "id") with Some sl => match sdef sl with DUuid4 => true | _ => false end | None => false end).
+
+  Definition closed_okw : bool :=
+    forallb (fun cid0 => match find_class (wclasses w) cid0 with Some c => class_okw c | None => false end) ids.
+
+  Lemma closed_ok_weaken : closed_ok = true -> closed_okw = true.
+  Proof.
+    unfold closed_ok, closed_okw. intros H. rewrite forallb_forall in *. intros x Hx. specialize (H x Hx).
+    destruct (find_class (wclasses w) x) as [c |]; [| discriminate]. unfold class_ok in H. unfold class_okw, init_okw.
+    apply andb_true_iff in H. destruct H as [H H4]. apply andb_true_iff in H. destruct H as [H H3].
+    rewrite H, H3, H4. reflexivity.
+  Qed.
+
+  Hypothesis Hclosed : closed_okw = true.
+
+  Lemma ids_class_okw : forall kid c, mem_ustr kid ids = true -> find_class (wclasses w) kid = Some c -> class_okw c = true.
+  Proof.
+    intros kid c Hm Hf. unfold closed_okw in Hclosed. rewrite forallb_forall in Hclosed.
     apply mem_ustr_In in Hm. specialize (Hclosed kid Hm). rewrite Hf in Hclosed. exact Hclosed.
   Qed.
 
   Lemma ids_found : forall kid, mem_ustr kid ids = true -> exists c, find_class (wclasses w) kid = Some c.
   Proof.
-    intros kid Hm. unfold closed_ok in Hclosed. rewrite forallb_forall in Hclosed.
+    intros kid Hm. unfold closed_okw in Hclosed. rewrite forallb_forall in Hclosed.
     apply mem_ustr_In in Hm. specialize (Hclosed kid Hm). destruct (find_class (wclasses w) kid); [eauto | discriminate].
   Qed.
 
@@ -124,135 +279,392 @@ Section Knot.
     apply orb_false_iff in H. destruct H as [H1 H2]. auto.
   Qed.
 
-  (* what a successful constructor run is: the class and the generic constructor over the recursive calls *)
-  Lemma run_construct_cg : forall f kid allow interop kw vrefs o,
-    mem_ustr kid ids = true -> plain_dict kw = true -> id_given kid kw = true ->
-    RUN (S f) (RConstruct kid allow interop kw vrefs) = Ok o ->
-    exists c, find_class (wclasses w) kid = Some c /\ class_ok c = true /\
-      construct_generic vr ev w pattern_ok selectors_ok
-        (fun k a i kw0 => RUN f (RConstruct k a i kw0 None))
-        (fun a i d => RUN f (RParse a i None d))
-        (fun vv refs a d => RUN f (RParseObs (Some vv) refs a false d))
-        (S f) c allow interop kw []
-        (match cfamily c with FSco => Some match vrefs with Some r => r | None => [] end | _ => None end) = Ok o.
+  (* ---- the constructor, class __init__ and generic part apart ---- *)
+  Definition md_cls (vv : ver) (t : ustring) (c : cls) (kw : list (ustring * jvalue)) : cls :=
+    match vv, alookup (u "created") kw with
+    | V20, Some cr =>
+      if ustr_eqb t (u "tlp") || match cr with JStr s => existsb (N.eqb 46) s | _ => false end then md_ms c else c
+    | V20, None => if vr_md20_default_ms vr then md_ms c else c
+    | _, _ => c
+    end.
+
+  Definition md_unmodelled (vv : ver) (t : ustring) (kw : list (ustring * jvalue)) : bool :=
+    match vv, alookup (u "created") kw with
+    | V20, Some (JStr _) => false
+    | V20, Some _ => negb (ustr_eqb t (u "tlp"))
+    | _, _ => false
+    end.
+
+  Definition GEN (f : nat) :=
+    construct_generic vr ev w pattern_ok selectors_ok
+      (fun k a i kw0 => RUN f (RConstruct k a i kw0 None))
+      (fun a i d => RUN f (RParse a i None d))
+      (fun vv refs a d => RUN f (RParseObs (Some vv) refs a false d)) (S f).
+
+  Definition md_expr (f : nat) (c : cls) (vv : ver) (allow interop : bool) (kw : list (ustring * jvalue))
+             (vrf : option (list (ustring * ustring))) : result pval :=
+    match alookup (u "definition_type") kw, alookup (u "definition") kw with
+    | Some dt, Some dv =>
+      match dt with
+      | JStr t =>
+        match class_for w t vv 3%N with
+        | None => Err EValueError
+        | Some mcid =>
+          if md_unmodelled vv t kw then Err EAttributeError else
+          do dd <- get_dict dv;
+          if amem (u "allow_custom") dd || amem (u "interoperability") dd || amem (u "self") dd then Unmodelled else
+          do m <- RUN f (RConstruct mcid false false dd None);
+          GEN f (md_cls vv t c kw) allow interop (aremove (u "definition") kw) [(u "definition", m)] vrf
+        end
+      | JArr _ | JObj _ => Err ETypeError
+      | _ => Err EValueError
+      end
+    | _, _ => GEN f c allow interop kw [] vrf
+    end.
+
+  Definition init_expr (f : nat) (c : cls) (allow interop : bool) (kw : list (ustring * jvalue))
+             (vrf : option (list (ustring * ustring))) : result pval :=
+    match cinit c with
+    | INone | IObservedDataWarn | IBundleObjects => GEN f c allow interop kw [] vrf
+    | IPositional names => GEN f c allow interop (pos_filter vr names kw) [] vrf
+    | IMarkingDefinition vv => md_expr f c vv allow interop kw vrf
+    | _ => Unmodelled
+    end.
+
+  Definition post (c : cls) (kw : list (ustring * jvalue)) (obj : pval) : result pval :=
+    match obj, cfamily c, cver c with
+    | PObject ocid inner dfl hc, FSco, V21 =>
+      if amem (u "id") kw then Ok obj
+      else if existsb (fun p => amem p inner) (cidcontrib c) then
+        match ctype c with
+        | Some t => Ok (PObject ocid (aset (u "id") (PJ (JStr (t ++ u "--" ++ e_uuid5 ev))) inner) dfl hc)
+        | None => Unmodelled
+        end
+      else Ok obj
+    | _, _, _ => Ok obj
+    end.
+
+  Lemma run_unfold : forall f kid allow interop kw vrefs c,
+    find_class (wclasses w) kid = Some c -> init_okw c = true ->
+    RUN (S f) (RConstruct kid allow interop kw vrefs) =
+    if amem (u "_valid_refs") kw || amem (u "allow_custom") kw || amem (u "interoperability") kw || amem (u "self") kw
+    then Unmodelled else
+    do obj <- init_expr f c allow interop kw
+                (match cfamily c with FSco => Some match vrefs with Some r => r | None => [] end | _ => None end);
+    post c kw obj.
   Proof.
-    intros f kid allow interop kw vrefs o Hm Hpl Hid H. cbn [run] in H.
-    destruct (find_class (wclasses w) kid) as [c |] eqn:Ef; try discriminate.
-    exists c. split; [reflexivity |]. pose proof (ids_class_ok kid c Hm Ef) as Hok. split; [exact Hok |].
-    unfold class_ok in Hok.
-    apply andb_true_iff in Hok. destruct Hok as [Hok _]. apply andb_true_iff in Hok. destruct Hok as [_ Hinit].
-    destruct (amem (u "_valid_refs") kw || amem (u "allow_custom") kw || amem (u "interoperability") kw || amem (u "self") kw);
-      try discriminate.
-    unfold bind in H.
-    destruct (cinit c) as [| names | | | | |]; try discriminate.
-    2:{ cbn [init_ok] in Hinit.
-        match type of H with context [filter ?g kw] =>
-          change (filter g kw) with (pos_filter vr names kw) in H end.
-        rewrite (pos_filter_id vr names kw Hinit (plain_members_nonnull kw Hpl)) in H.
-        match type of H with match ?g with _ => _ end = _ => destruct g as [obj | |] eqn:Eg; try discriminate end.
-        unfold id_given in Hid; rewrite Ef in Hid; unfold is_sco21 in Hid.
-        destruct obj; try (inv H; reflexivity).
-        destruct (cfamily c); try (inv H; reflexivity); destruct (cver c); try (inv H; reflexivity).
-        cbn [negb orb] in Hid; rewrite Hid in H; inv H; reflexivity. }
-    all: match type of H with match ?g with _ => _ end = _ => destruct g as [obj | |] eqn:Eg; try discriminate end.
-    all: unfold id_given in Hid; rewrite Ef in Hid; unfold is_sco21 in Hid.
-    all: destruct obj; try (inv H; reflexivity).
-    all: destruct (cfamily c); try (inv H; reflexivity); destruct (cver c); try (inv H; reflexivity).
-    all: cbn [negb orb] in Hid; rewrite Hid in H; inv H; reflexivity.
+    intros f kid allow interop kw vrefs c Ef Hi. cbn [run]. rewrite Ef.
+    unfold init_okw, md_ok in Hi. unfold init_expr.
+    destruct (cinit c) eqn:Ei; cbn [init_ok orb] in Hi; try discriminate; try reflexivity.
+    unfold md_expr, md_cls, md_ms. rewrite Ei. reflexivity.
   Qed.
 
-  Theorem run_construct_idem : forall fuel, claim fuel.
-  Proof.
-    induction fuel as [| f IH]; intros kid allow interop kw vrefs o Hm Hp Hid H.
-    - cbn [run] in H. discriminate.
-    - cbn [run] in H |- *.
-      destruct (find_class (wclasses w) kid) as [c |] eqn:Ef; try discriminate.
-      pose proof (ids_class_ok kid c Hm Ef) as Hok. unfold class_ok in Hok.
-      apply andb_true_iff in Hok. destruct Hok as [Hok Hidslot]. apply andb_true_iff in Hok. destruct Hok as [Hok Hinit].
-      apply andb_true_iff in Hok. destruct Hok as [Hnd Hslots]. apply nodupb_NoDup in Hnd.
-      destruct (amem (u "_valid_refs") kw || amem (u "allow_custom") kw || amem (u "interoperability") kw || amem (u "self") kw) eqn:Eres;
-        try discriminate.
-      destruct (reserved_split kw Eres) as [R1 [R2 [R3 R4]]].
-      set (vrf := match cfamily c with FSco => Some match vrefs with Some r => r | None => [] end | _ => None end) in *.
-      set (rc := fun k a i kw0 => RUN f (RConstruct k a i kw0 None)) in *.
-      set (rp := fun a i d => RUN f (RParse a i None d)) in *.
-      set (ro := fun vv refs a d => RUN f (RParseObs (Some vv) refs a false d)) in *.
-      pose proof (claim_rc f IH) as Hrc. fold rc in Hrc.
+  (* ---- one level of the induction ---- *)
+  Section Level.
+    Variable f : nat.
+    Hypothesis IH : claim f.
+
+    Notation rc := (fun k a i kw0 => RUN f (RConstruct k a i kw0 None)).
+    Notation rp := (fun a i d => RUN f (RParse a i None d)).
+    Notation ro := (fun vv refs a d => RUN f (RParseObs (Some vv) refs a false d)).
+
+    (* the recursive constructor with the reserved class id served by the strict constructor of a marking class *)
+    Definition rc2 (mcid : ustring) : ustring -> bool -> bool -> list (ustring * jvalue) -> result pval :=
+      fun cid0 a0 i0 x => if ustr_eqb cid0 MARK then RUN f (RConstruct mcid false false x None)
+                          else RUN f (RConstruct cid0 a0 i0 x None).
+
+    Lemma rc2_agree : forall mcid cid0 a0 i0 x, ustr_eqb cid0 MARK = false -> rc2 mcid cid0 a0 i0 x = rc cid0 a0 i0 x.
+    Proof. intros mcid cid0 a0 i0 x E. unfold rc2. rewrite E. reflexivity. Qed.
+
+    Lemma nestable_given : forall k kw, nestable k = true -> id_given k kw = true.
+    Proof.
+      intros k kw Hn. unfold nestable in Hn. apply andb_true_iff in Hn. destruct Hn as [_ Hs].
+      unfold id_given. destruct (find_class (wclasses w) k); auto. rewrite Hs. reflexivity.
+    Qed.
+
+    Lemma rc2_idem : forall mcid, nestable mcid = true -> rc_idem (rc2 mcid) P2.
+    Proof.
+      intros mcid Hn cid0 a0 i0 x o HP Hp H. unfold rc2 in *. unfold P2 in HP.
+      destruct (ustr_eqb cid0 MARK) eqn:E.
+      - pose proof Hn as Hn'. unfold nestable in Hn'. apply andb_true_iff in Hn'. destruct Hn' as [Hm _].
+        exact (IH mcid false false x None o Hm Hp (nestable_given mcid x Hn) H).
+      - cbn [orb] in HP. exact (claim_rc f IH cid0 a0 i0 x o HP Hp H).
+    Qed.
+
+    Lemma strict_plain_unflagged : forall k i0 x vrefs0 o,
+      plain_dict x = true -> RUN f (RConstruct k false i0 x vrefs0) = Ok o -> pval_has_custom o = false.
+    Proof.
+      intros k i0 x vrefs0 o Hp H. destruct o as [j | us t | l | m0 | ci inner d hc]; try reflexivity.
+      cbn [pval_has_custom]. destruct hc; auto.
+      pose proof (run_construct_strict_flag vr ev w pattern_ok selectors_ok f k i0 x vrefs0 ci inner d true H eq_refl) as Hc.
+      destruct (plain_dict_no_key x Hp) as [Hn _]. unfold C04Strict.cp, cp_key in *. congruence.
+    Qed.
+
+    Lemma md_slots_facts : forall c', md_slots_ok c' = true ->
+      NoDup (map sname (cslots c')) /\ NoDup (map sname (cslots (wrap_cls DEF c'))) /\
+      forallb (slot_ok vr P2) (cslots (wrap_cls DEF c')) = true /\
+      (forall sl, In sl (cslots c') -> sname sl <> DEF ->
+         kind_avoids (skind sl) = true \/ (sname sl = ext_key /\ sdef sl = DNone)) /\
+      (exists sd, slot_of c' DEF = Some sd /\ sdef sd = DNone) /\
+      (exists sd, slot_of (wrap_cls DEF c') DEF = Some sd /\ sdef sd = DNone /\ skind sd = KEmbedded MARK) /\
+      (exists sd, slot_of (wrap_cls DEF c') DEFTYPE = Some sd /\ sdef sd = DNone /\ skind sd = KString).
+    Proof.
+      intros c' H. unfold md_slots_ok in H. cbv zeta in H.
+      apply andb_true_iff in H. destruct H as [H H7]. apply andb_true_iff in H. destruct H as [H H6].
+      apply andb_true_iff in H. destruct H as [H H5]. apply andb_true_iff in H. destruct H as [H H4].
+      apply andb_true_iff in H. destruct H as [H H3]. apply andb_true_iff in H. destruct H as [H1 H2].
+      split; [apply nodupb_NoDup; exact H1 |]. split; [apply nodupb_NoDup; exact H2 |]. split; [exact H3 |].
+      split; [| split; [| split]].
+      - intros sl Hin Hne. rewrite forallb_forall in H4. specialize (H4 sl Hin).
+        apply orb_true_iff in H4. destruct H4 as [H4 | H4].
+        + apply orb_true_iff in H4. destruct H4 as [H4 | H4]; [apply ustr_eqb_eq in H4; contradiction | left; exact H4].
+        + right. apply andb_true_iff in H4. destruct H4 as [A B]. apply ustr_eqb_eq in A. split; auto.
+          unfold is_dnone in B. destruct (sdef sl); try discriminate. reflexivity.
+      - destruct (slot_of c' DEF) as [sd |]; try discriminate. exists sd. split; auto.
+        unfold is_dnone in H5. destruct (sdef sd); try discriminate. reflexivity.
+      - destruct (slot_of (wrap_cls DEF c') DEF) as [sd |]; try discriminate. exists sd. split; auto.
+        apply andb_true_iff in H6. destruct H6 as [A B]. unfold is_dnone in A.
+        destruct (sdef sd); try discriminate. destruct (skind sd); try discriminate. apply ustr_eqb_eq in B. subst. auto.
+      - destruct (slot_of (wrap_cls DEF c') DEFTYPE) as [sd |]; try discriminate. exists sd. split; auto.
+        apply andb_true_iff in H7. destruct H7 as [A B]. unfold is_dnone in A.
+        destruct (sdef sd); try discriminate. destruct (skind sd); try discriminate. auto.
+    Qed.
+
+    (* the constructor with the wrapped definition is the generic constructor of the wrapping class *)
+    Lemma md_reduce : forall c' mcid allow interop vrf K0 dd m,
+      md_slots_ok c' = true ->
+      plain_dict K0 = true -> alookup DEF K0 = Some (JObj dd) -> plain_dict dd = true -> reserved_kw dd = Ok tt ->
+      RUN f (RConstruct mcid false false dd None) = Ok m ->
+      GEN f c' allow interop (aremove DEF K0) [(DEF, m)] vrf =
+      construct_generic vr ev w pattern_ok selectors_ok (rc2 mcid) rp ro (S f) (wrap_cls DEF c') allow interop K0 [] vrf.
+    Proof.
+      intros c' mcid allow interop vrf K0 dd m Hms Hp HK0 Hpd Hres Hm.
+      destruct (md_slots_facts c' Hms) as [Hnd' [_ [_ [Hav [[sd [Hd Hdn]] _]]]]].
+      destruct (plain_dict_no_key K0 Hp) as [Hcp Hext]. apply amem_alookup_none in Hcp. apply amem_alookup_none in Hext.
+      destruct (run_construct_object _ _ _ _ _ _ _ _ _ _ _ _ Hm) as [ci [S0 [d0 [h0 Em]]]].
+      unfold GEN.
+      assert (Hm2 : rc2 mcid MARK allow false dd = Ok m) by (unfold rc2; rewrite ustr_eqb_refl; exact Hm).
+      assert (Hhc : pval_has_custom m = false) by (eapply strict_plain_unflagged; eauto).
+      assert (Hobj : match m with PJ _ => False | _ => True end) by (subst m; exact I).
+      exact (cg_wrap vr ev w pattern_ok selectors_ok rc (rc2 mcid) rp ro (rc2_agree mcid) c' allow interop vrf DEF m dd K0 sd
+               Hd HK0 Hres Hm2 Hhc Hobj Hext Hav Hnd' Hcp (S f)).
+    Qed.
+    Lemma assoc_In : forall t k m, assoc t m = Some k -> In (t, k) m.
+    Proof.
+      induction m as [| [k' v'] r IHm]; cbn [assoc]; intros E; try discriminate.
+      destruct (ustr_eqb t k') eqn:Et; [apply ustr_eqb_eq in Et; subst; inversion E; left; reflexivity | right; apply IHm; exact E].
+    Qed.
+
+    Lemma md_cls_cases : forall vv t c kw, md_cls vv t c kw = c \/ (vv = V20 /\ md_cls vv t c kw = md_ms c).
+    Proof.
+      intros vv t c kw. unfold md_cls. destruct vv; [| left; reflexivity].
+      destruct (alookup (u "created") kw) as [cr |].
+      - match goal with |- context [if ?b then _ else _] => destruct b end; auto.
+      - destruct (vr_md20_default_ms vr); auto.
+    Qed.
+
+    Lemma md_cls_cid : forall vv t c kw, cid (md_cls vv t c kw) = cid c.
+    Proof. intros vv t c kw. destruct (md_cls_cases vv t c kw) as [E | [_ E]]; rewrite E; reflexivity. Qed.
+
+    Lemma md_cls_defaulted : forall vv t c kw S, defaulted_names (md_cls vv t c kw) S = defaulted_names c S.
+    Proof.
+      intros vv t c kw S. destruct (md_cls_cases vv t c kw) as [E | [_ E]]; rewrite E; [reflexivity | apply md_defaulted].
+    Qed.
+
+    Lemma written_wrap_md : forall vv t c kw S, written (wrap_cls DEF (md_cls vv t c kw)) S = written c S.
+    Proof. intros vv t c kw S. unfold written. rewrite wrap_defaulted, md_cls_defaulted. reflexivity. Qed.
+
+    (* a timestamp stored under `created` is written as its text *)
+    Lemma created_written : forall cw Sv us txt,
+      NoDup (map sname (cslots cw)) -> forallb (slot_ok vr P2) (cslots cw) = true ->
+      alookup CREATED Sv = Some (PTime us txt) -> alookup CREATED (written cw Sv) = Some (JStr txt).
+    Proof.
+      intros cw Sv us txt Hnd Hsl E. rewrite (written_stored vr P2 cw Hnd Hsl Sv CREATED _ E); [reflexivity |].
+      intros b Hb. discriminate.
+    Qed.
+    Lemma created_ok_facts : forall cw milli, created_ok cw milli = true ->
+      exists sC, slot_of cw CREATED = Some sC /\ sdef sC = DNow /\ skind sC = KTime (if milli then PMilli else PAny) CExact.
+    Proof.
+      intros cw milli H. unfold created_ok in H. destruct (slot_of cw CREATED) as [sC |]; try discriminate.
+      exists sC. split; auto. apply andb_true_iff in H. destruct H as [A B].
+      destruct (sdef sC); try discriminate. split; auto.
+      destruct (skind sC) eqn:E; try discriminate.
+      destruct p; try discriminate; destruct c; try discriminate; destruct milli; try discriminate; reflexivity.
+    Qed.
+    (* 2.0: the precision of `created` chosen from the arguments is chosen again from what was written *)
+    Lemma md_rerun_cls : forall c vv t allow interop vrf kw mcid Sv dfl hc,
+      plain_dict kw = true ->
+      md_unmodelled vv t kw = false ->
+      md_slots_ok (md_cls vv t c kw) = true ->
+      (vv = V20 -> vr_md20_default_ms vr = true /\ created_ok (wrap_cls DEF c) false = true /\
+                   created_ok (wrap_cls DEF (md_ms c)) true = true) ->
+      construct_generic vr ev w pattern_ok selectors_ok (rc2 mcid) rp ro (S f) (wrap_cls DEF (md_cls vv t c kw)) allow interop kw [] vrf
+        = Ok (PObject (cid (wrap_cls DEF (md_cls vv t c kw))) Sv dfl hc) ->
+      md_unmodelled vv t (written c Sv) = false /\ md_cls vv t c (written c Sv) = md_cls vv t c kw.
+    Proof.
+      intros c vv t allow interop vrf kw mcid Sv dfl hc Hp Hun Hms HV Hcg.
+      destruct vv; [| split; reflexivity].
+      destruct (HV eq_refl) as [Hv [Hc0 Hc1]]. clear HV.
+      destruct (md_slots_facts _ Hms) as [_ [Hndw [Hslw _]]].
+      rewrite <- (written_wrap_md V20 t c kw Sv).
+      unfold md_unmodelled, md_cls in *. change (u "created") with CREATED in *.
+      destruct (ustr_eqb t (u "tlp")) eqn:Etlp.
+      - (* the TLP markings: always milliseconds *)
+        cbn [orb negb] in *. rewrite Hv in *.
+        assert (Ec : (match alookup CREATED kw with Some _ => md_ms c | None => md_ms c end) = md_ms c)
+          by (destruct (alookup CREATED kw); reflexivity).
+        rewrite Ec in *.
+        destruct (alookup CREATED (written (wrap_cls DEF (md_ms c)) Sv)) as [[] |]; split; reflexivity.
+      - cbn [orb negb] in *.
+        destruct (alookup CREATED kw) as [cr |] eqn:Ecr.
+        + destruct cr; try discriminate.
+          destruct (existsb (N.eqb 46) s) eqn:Ed.
+          * (* a fraction was given *)
+            destruct (created_ok_facts _ _ Hc1) as [sC [EsC [EdC EkC]]].
+            pose proof (cg_given_value vr ev w pattern_ok selectors_ok (rc2 mcid) rp ro _ allow interop vrf Hndw
+                          (S f) kw Sv _ hc CREATED (JStr s) Hp Hcg Ecr) as Hg.
+            rewrite EsC in Hg. destruct Hg as [v [h [Ev Eck]]]. rewrite EkC in Eck. cbn [clean_kind] in Eck. unfold bind in Eck.
+            rewrite Hpad in Eck.
+            destruct (ts_clean true PMilli CExact s) as [[us txt] | |] eqn:Ets; try discriminate. inv_ok Eck. cbn [fst snd] in Ev.
+            rewrite (created_written _ _ _ _ Hndw Hslw Ev).
+            pose proof (ts_clean_milli_dotted _ _ _ Ets) as Hd. unfold dotted in Hd. rewrite Hd. split; reflexivity.
+          * (* no fraction: the class precision (any) writes none *)
+            destruct (created_ok_facts _ _ Hc0) as [sC [EsC [EdC EkC]]].
+            pose proof (cg_given_value vr ev w pattern_ok selectors_ok (rc2 mcid) rp ro _ allow interop vrf Hndw
+                          (S f) kw Sv _ hc CREATED (JStr s) Hp Hcg Ecr) as Hg.
+            rewrite EsC in Hg. destruct Hg as [v [h [Ev Eck]]]. rewrite EkC in Eck. cbn [clean_kind] in Eck. unfold bind in Eck.
+            rewrite Hpad in Eck.
+            destruct (ts_clean true PAny CExact s) as [[us txt] | |] eqn:Ets; try discriminate. inv_ok Eck. cbn [fst snd] in Ev.
+            rewrite (created_written _ _ _ _ Hndw Hslw Ev).
+            assert (Hd : dotted txt = false) by (eapply (ts_clean_undotted PAny CExact); [exact Ets | exact Ed | discriminate]).
+            unfold dotted in Hd. rewrite Hd. split; reflexivity.
+        + (* the clock default, kept at millisecond precision *)
+          rewrite Hv in *.
+          destruct (created_ok_facts _ _ Hc1) as [sC [EsC [EdC EkC]]].
+          destruct (cg_default_now vr ev w pattern_ok selectors_ok (rc2 mcid) rp ro _ allow interop vrf Hndw
+                      (S f) kw Sv _ hc CREATED sC PMilli CExact Hp Hcg Ecr EsC EdC EkC) as [us [txt [Ev Ets]]].
+          rewrite Hpad in Ets.
+          rewrite (created_written _ _ _ _ Hndw Hslw Ev).
+          pose proof (ts_clean_now_milli_dotted _ _ _ Ets) as Hd. unfold dotted in Hd. rewrite Hd. split; reflexivity.
+    Qed.
+    Definition idem_result (c : cls) (kw : list (ustring * jvalue)) (obj : pval)
+               (rerun : list (ustring * jvalue) -> result pval) : Prop :=
+      exists Sv hc, obj = PObject (cid c) Sv (defaulted_names c Sv) hc /\
+        rerun (written c Sv) = Ok obj /\
+        plain_dict (written c Sv) = true /\
+        (forall r, In r reserved_names -> amem r kw = false -> amem r (written c Sv) = false) /\
+        (forall n, amem n kw = true -> amem n Sv = true).
+
+    Lemma gen_idem : forall c allow interop kw vrf obj,
+      NoDup (map sname (cslots c)) -> forallb (slot_ok vr nestable) (cslots c) = true ->
+      plain_dict kw = true ->
+      GEN f c allow interop kw [] vrf = Ok obj ->
+      idem_result c kw obj (fun kw' => GEN f c allow interop kw' [] vrf).
+    Proof.
+      intros c allow interop kw vrf obj Hnd Hslots Hp H. unfold GEN in *.
+      exact (written_facts vr ev w pattern_ok selectors_ok rc rp ro nestable Hpad (claim_rc f IH) c allow interop vrf Hnd Hslots
+               (S f) kw obj Hp H).
+    Qed.
+
+    Lemma md_idem : forall c vv allow interop kw vrf obj,
+      cinit c = IMarkingDefinition vv -> md_ok c = true ->
+      NoDup (map sname (cslots c)) -> forallb (slot_ok vr nestable) (cslots c) = true ->
+      plain_dict kw = true ->
+      md_expr f c vv allow interop kw vrf = Ok obj ->
+      idem_result c kw obj (fun kw' => md_expr f c vv allow interop kw' vrf).
+    Proof.
+      intros c vv allow interop kw vrf obj Hi Hmd Hnd Hslots Hp H.
+      unfold md_ok in Hmd. rewrite Hi in Hmd.
+      apply andb_true_iff in Hmd. destruct Hmd as [Hmd HV]. apply andb_true_iff in Hmd. destruct Hmd as [Hmd Hdt].
+      apply andb_true_iff in Hmd. destruct Hmd as [Hmd Hms]. apply andb_true_iff in Hmd. destruct Hmd as [_ Hmk].
+      destruct (md_slots_facts c Hms) as [_ [_ [_ [_ [[sd0 [Esd0 Edn0]] _]]]]].
+      assert (Hdn_def : forall sl, slot_of c DEF = Some sl -> sdef sl = DNone) by (intros sl E; rewrite Esd0 in E; inversion E; subst; exact Edn0).
+      assert (Hdn_dt : forall sl, slot_of c DEFTYPE = Some sl -> sdef sl = DNone).
+      { intros sl E. rewrite E in Hdt. unfold is_dnone in Hdt. destruct (sdef sl); try discriminate. reflexivity. }
+      (* nothing to wrap: the generic constructor, and nothing to wrap afterwards either *)
+      assert (Hgen : (alookup DEFTYPE kw = None \/ alookup DEF kw = None) -> GEN f c allow interop kw [] vrf = Ok obj ->
+                     idem_result c kw obj (fun kw' => md_expr f c vv allow interop kw' vrf)).
+      { intros Habs Hcg. destruct (gen_idem c allow interop kw vrf obj Hnd Hslots Hp Hcg) as [Sv [hc [Eo [Hre [Hpl [Hres Hgiv]]]]]].
+        exists Sv, hc. split; [exact Eo |]. split; [| auto].
+        subst obj. unfold GEN in Hcg. unfold md_expr. change (u "definition_type") with DEFTYPE. change (u "definition") with DEF.
+        destruct Habs as [Ha | Ha].
+        - assert (E0 : alookup DEFTYPE (written c Sv) = None).
+          { rewrite alookup_written.
+            pose proof (cg_absent vr ev w pattern_ok selectors_ok rc rp ro c allow interop vrf Hnd (S f) kw Sv _ hc DEFTYPE Hp Hcg Ha Hdn_dt) as Hab.
+            unfold amem in Hab. destruct (alookup DEFTYPE Sv); [discriminate | reflexivity]. }
+          rewrite E0. exact Hre.
+        - assert (E0 : alookup DEF (written c Sv) = None).
+          { rewrite alookup_written.
+            pose proof (cg_absent vr ev w pattern_ok selectors_ok rc rp ro c allow interop vrf Hnd (S f) kw Sv _ hc DEF Hp Hcg Ha Hdn_def) as Hab.
+            unfold amem in Hab. destruct (alookup DEF Sv); [discriminate | reflexivity]. }
+          rewrite E0. destruct (alookup DEFTYPE (written c Sv)); exact Hre. }
+      unfold md_expr in H. change (u "definition_type") with DEFTYPE in H. change (u "definition") with DEF in H.
+      destruct (alookup DEFTYPE kw) as [dt |] eqn:Edt; [| apply Hgen; auto].
+      destruct (alookup DEF kw) as [dv |] eqn:Edv; [| apply Hgen; auto].
+      clear Hgen.
+      destruct dt as [| | | | t | |]; try discriminate.
+      destruct (class_for w t vv 3%N) as [mcid |] eqn:Ecf; try discriminate.
+      destruct (md_unmodelled vv t kw) eqn:Eun; try discriminate.
+      destruct dv as [| | | | | | dd]; cbn [get_dict bind] in H; try discriminate.
+      destruct (amem (u "allow_custom") dd || amem (u "interoperability") dd || amem (u "self") dd) eqn:Er3; try discriminate.
       unfold bind in H.
-      assert (Hgen : exists obj,
-                construct_generic vr ev w pattern_ok selectors_ok rc rp ro (S f) c allow interop kw [] vrf = Ok obj /\
-                match obj, cfamily c, cver c with
-                | PObject ocid inner dfl hc, FSco, V21 =>
-                  if amem (u "id") kw then Ok obj
-                  else if existsb (fun p => amem p inner) (cidcontrib c) then
-                    match ctype c with
-                    | Some t => Ok (PObject ocid (aset (u "id") (PJ (JStr (t ++ u "--" ++ e_uuid5 ev))) inner) dfl hc)
-                    | None => Unmodelled
-                    end
-                  else Ok obj
-                | _, _, _ => Ok obj
-                end = Ok o).
-      { destruct (cinit c) as [| names | | | | |]; try discriminate.
-        2:{ cbn [init_ok] in Hinit.
-            match type of H with context [filter ?g kw] => change (filter g kw) with (pos_filter vr names kw) in H end.
-            rewrite (pos_filter_id vr names kw Hinit (plain_members_nonnull kw Hp)) in H.
-            match type of H with match ?g with _ => _ end = _ => destruct g as [obj | |] eqn:Eg; try discriminate end.
-            exists obj; auto. }
-        all: match type of H with match ?g with _ => _ end = _ => destruct g as [obj | |] eqn:Eg; try discriminate end;
-          exists obj; auto. }
-      clear H. destruct Hgen as [obj [Hcg Hpost]].
-      destruct (cg_idem vr ev w pattern_ok selectors_ok rc rp ro nestable Hpad Hrc c allow interop vrf Hnd Hslots (S f) kw obj Hp Hcg)
-        as [Sv [hc [Eobj [Hre [Hkeys Hgiven]]]]].
+      destruct (RUN f (RConstruct mcid false false dd None)) as [m | |] eqn:Em; try discriminate.
+      (* table facts *)
+      assert (Hnm : nestable mcid = true).
+      { unfold class_for in Ecf. cbn in Ecf. apply assoc_In in Ecf. rewrite forallb_forall in Hmk. exact (Hmk _ Ecf). }
+      assert (Hms' : md_slots_ok (md_cls vv t c kw) = true).
+      { destruct (md_cls_cases vv t c kw) as [E | [Ev E]]; rewrite E; [exact Hms |]. subst vv.
+        apply andb_true_iff in HV. destruct HV as [HV _]. apply andb_true_iff in HV. destruct HV as [HV _].
+        apply andb_true_iff in HV. destruct HV as [_ HV]. exact HV. }
+      assert (HV' : vv = V20 -> vr_md20_default_ms vr = true /\ created_ok (wrap_cls DEF c) false = true /\
+                                created_ok (wrap_cls DEF (md_ms c)) true = true).
+      { intros Ev. subst vv. apply andb_true_iff in HV. destruct HV as [HV H4]. apply andb_true_iff in HV. destruct HV as [HV H3].
+        apply andb_true_iff in HV. destruct HV as [H1 _]. auto. }
+      destruct (plain_dict_lookup kw DEF (JObj dd) Hp Edv) as [_ Hpd]. rewrite plain_json_obj in Hpd. fold (plain_dict dd) in Hpd.
+      assert (Hres : reserved_kw dd = Ok tt).
+      { apply orb_false_iff in Er3. destruct Er3 as [Er3 R3]. apply orb_false_iff in Er3. destruct Er3 as [R1 R2].
+        unfold reserved_kw. rewrite R1, R2, R3. reflexivity. }
+      pose proof Hnm as Hnm'. unfold nestable in Hnm'. apply andb_true_iff in Hnm'. destruct Hnm' as [Hmm _].
+      destruct (IH mcid false false dd None m Hmm Hpd (nestable_given mcid dd Hnm) Em) as [E1 [E2 [E3 E4]]].
+      (* the run is a generic run of the wrapping class *)
+      set (c' := md_cls vv t c kw) in *.
+      rewrite (md_reduce c' mcid allow interop vrf kw dd m Hms' Hp Edv Hpd Hres Em) in H.
+      destruct (md_slots_facts c' Hms') as [_ [Hndw [Hslw [_ [_ [[sdw [Esdw [Ednw Ekw]]] [st [Est [Ednt Ekt]]]]]]]]].
+      destruct (written_facts vr ev w pattern_ok selectors_ok (rc2 mcid) rp ro P2 Hpad (rc2_idem mcid Hnm) (wrap_cls DEF c') allow interop vrf
+                  Hndw Hslw (S f) kw obj Hp H) as [Sv [hc [Eo [Hre [Hpl [Hresv Hgiv]]]]]].
+      assert (Ew : written (wrap_cls DEF c') Sv = written c Sv) by (apply written_wrap_md).
+      assert (Ecid : cid (wrap_cls DEF c') = cid c) by (cbn [cid wrap_cls]; apply md_cls_cid).
+      assert (Edfl : defaulted_names (wrap_cls DEF c') Sv = defaulted_names c Sv) by (rewrite wrap_defaulted; apply md_cls_defaulted).
+      exists Sv, hc. rewrite <- Ew. split; [rewrite <- Ecid, <- Edfl; exact Eo |]. split; [| auto].
+      (* what was written: the type, the wrapped definition *)
       subst obj.
-      assert (Eo : o = PObject (cid c) Sv (defaulted_names c Sv) hc).
-      { unfold id_given in Hid. rewrite Ef in Hid. unfold is_sco21 in Hid.
-        destruct (cfamily c); try (inv_ok Hpost; reflexivity).
-        destruct (cver c); try (inv_ok Hpost; reflexivity).
-        cbn [negb orb] in Hid. rewrite Hid in Hpost. inv_ok Hpost. reflexivity. }
-      subst o.
-      assert (Eom : omem (PObject (cid c) Sv (defaulted_names c Sv) hc) = written c Sv).
-      { unfold omem. rewrite encode_obj. reflexivity. }
-      rewrite Eom.
-      assert (Hresv : forall r, In r reserved_names -> amem r kw = false -> amem r (written c Sv) = false).
-      { intros r Hr Hk. destruct (amem r (written c Sv)) eqn:Ea; auto. exfalso.
-        destruct (Hkeys r Ea) as [Hin | Hin]; [| congruence].
-        unfold PN in Hin. apply in_map_iff in Hin. destruct Hin as [sl [En Hsl]].
-        rewrite forallb_forall in Hslots. pose proof (Hslots sl Hsl) as Hs. unfold slot_ok in Hs.
-        apply andb_true_iff in Hs. destruct Hs as [Hs _]. apply andb_true_iff in Hs. destruct Hs as [_ Hs].
-        apply negb_true_iff in Hs. rewrite En in Hs. apply (proj2 (mem_ustr_In r reserved_names)) in Hr. congruence. }
-      assert (In1 : In (u "_valid_refs") reserved_names) by (unfold reserved_names; cbn [map In]; repeat (try (left; reflexivity); right)).
-      assert (In2 : In (u "allow_custom") reserved_names) by (unfold reserved_names; cbn [map In]; repeat (try (left; reflexivity); right)).
-      assert (In3 : In (u "interoperability") reserved_names) by (unfold reserved_names; cbn [map In]; repeat (try (left; reflexivity); right)).
-      assert (In4 : In (u "self") reserved_names) by (unfold reserved_names; cbn [map In]; repeat (try (left; reflexivity); right)).
-      split; [rewrite encode_obj; reflexivity |].
-      assert (Hplw : plain_dict (written c Sv) = true).
-      { destruct (cg_written_plain vr ev w pattern_ok selectors_ok rc rp ro nestable Hpad Hrc c allow interop vrf Hnd Hslots (S f) kw _ Hp Hcg)
-          as [S2 [hc2 [E2 Hpl2]]]. inversion E2; subst. exact Hpl2. }
-      split; [| split; [| exact Hplw]].
-      + unfold reserved_kw. rewrite (Hresv _ In2 R2), (Hresv _ In3 R3), (Hresv _ In4 R4). reflexivity.
-      + rewrite (Hresv _ In1 R1), (Hresv _ In2 R2), (Hresv _ In3 R3), (Hresv _ In4 R4). cbn [orb].
-        fold vrf. fold rc. fold rp. fold ro.
-        unfold bind.
-        destruct (cinit c) as [| names | | | | |]; try discriminate.
-        2: (cbn [init_ok] in Hinit;
-            match goal with |- context [filter ?g (written c Sv)] => change (filter g (written c Sv)) with (pos_filter vr names (written c Sv)) end;
-            rewrite (pos_filter_id vr names (written c Sv) Hinit
-                       (cg_written_members_nonnull vr ev w pattern_ok selectors_ok rc rp ro nestable Hrc c allow interop vrf Hnd Hslots
-                          (S f) kw Sv _ hc Hp Hcg))).
-        all: rewrite Hre.
-        all: unfold id_given in Hid; rewrite Ef in Hid; unfold is_sco21 in Hid, Hidslot.
-        all: destruct (cfamily c); try reflexivity; destruct (cver c); try reflexivity.
-        all: cbn [negb orb] in Hid, Hidslot.
-        all: assert (Hidw : amem (u "id") (written c Sv) = true);
-          [ unfold amem; rewrite alookup_written;
-            pose proof (Hgiven _ Hid) as Hs; unfold amem in Hs;
-            destruct (alookup (u "id") Sv) as [v0 |] eqn:Ev; try discriminate;
-            destruct (mem_ustr (u "id") (defaulted_names c Sv)) eqn:Ed; auto;
-            exfalso;
-            destruct (mem_defaulted vr nestable c Hnd Hslots _ _ Ed) as [sl [b [E1 [E2 _]]]];
-            rewrite E1 in Hidslot; rewrite E2 in Hidslot; discriminate
-          | rewrite Hidw; reflexivity ].
-  Qed.
+      assert (W1 : alookup DEFTYPE (written (wrap_cls DEF c') Sv) = Some (JStr t)).
+      { pose proof (cg_given_value vr ev w pattern_ok selectors_ok (rc2 mcid) rp ro _ allow interop vrf Hndw
+                      (S f) kw Sv _ hc DEFTYPE (JStr t) Hp H Edt) as Hg.
+        rewrite Est in Hg. destruct Hg as [v [h [Ev Eck]]]. rewrite Ekt in Eck. cbn [clean_kind] in Eck.
+        unfold clean_string in Eck. cbn [py_str bind] in Eck. inv_ok Eck.
+        rewrite (written_stored vr P2 _ Hndw Hslw Sv DEFTYPE _ Ev); [reflexivity | intros b Hb; discriminate]. }
+      assert (W2 : alookup DEF (written (wrap_cls DEF c') Sv) = Some (JObj (omem m))).
+      { pose proof (cg_given_value vr ev w pattern_ok selectors_ok (rc2 mcid) rp ro _ allow interop vrf Hndw
+                      (S f) kw Sv _ hc DEF (JObj dd) Hp H Edv) as Hg.
+        rewrite Esdw in Hg. destruct Hg as [v [h [Ev Eck]]]. rewrite Ekw in Eck. cbn [clean_kind] in Eck.
+        rewrite Hres in Eck. cbn [bind] in Eck. unfold rc2 in Eck. rewrite ustr_eqb_refl in Eck. rewrite Em in Eck. cbn [bind] in Eck.
+        destruct (negb allow && pval_has_custom m); try discriminate. inv_ok Eck.
+        destruct (run_construct_object _ _ _ _ _ _ _ _ _ _ _ _ Em) as [ci [S0 [d0 [h0 Emo]]]].
+        rewrite (written_stored vr P2 _ Hndw Hslw Sv DEF _ Ev); [rewrite E1; reflexivity | intros b Hb; subst; discriminate]. }
+      destruct (md_rerun_cls c vv t allow interop vrf kw mcid Sv _ hc Hp Eun Hms' HV' H) as [W3 W4].
+      rewrite Ew in *.
+      unfold md_expr. change (u "definition_type") with DEFTYPE. change (u "definition") with DEF.
+      rewrite W1, W2, Ecf, W3. cbn [get_dict bind].
+      assert (Er3' : amem (u "allow_custom") (omem m) || amem (u "interoperability") (omem m) || amem (u "self") (omem m) = false).
+      { unfold reserved_kw in E2. destruct (amem (u "allow_custom") (omem m)); try discriminate.
+        destruct (amem (u "interoperability") (omem m) || amem (u "self") (omem m)) eqn:E; try discriminate.
+        cbn [orb]. exact E. }
+      rewrite Er3'. rewrite E3. cbn [bind]. rewrite W4. fold c'.
+      rewrite (md_reduce c' mcid allow interop vrf (written c Sv) (omem m) m Hms' Hpl W2 E4 E2 E3).
+      exact Hre.
+    Qed.
+  End Level.
 End Knot.
 
 (* ------------------------------------------------------------------ the proved classes of a world *)
